@@ -165,6 +165,9 @@ theorem pcChain_append : ∀ (l1 l2 : List Word) (k : Nat),
 def runners (s : State) : List Runner :=
   s.executeBus.inside ++ s.cuPendings.items.map (·.2) ++ s.controlBus.inside
 
+/-- the program has no jump (`j`, `jal`, `jalr`) -/
+def NoJmp (app : App) : Prop := app.instrs.all (fun i => !i.instructionType.IsUnconditionalBranch) = true
+
 /-- the pcs on the decode bus and the fetch unit's pc continue the decoded instructions (`want` = number of the next
 instruction to decode), or lie past the end when everything has been decoded; `slack` = emissions still allowed -/
 def Pcs (app : App) (want : Nat) (fu : FetchUnit) (D : List Word) (slack : Nat) : Prop :=
@@ -173,7 +176,7 @@ def Pcs (app : App) (want : Nat) (fu : FetchUnit) (D : List Word) (slack : Nat) 
     h + D.length + slack ≤ app.instrs.length + 2 ∧
     (fu.co = .none → h + D.length ≤ app.instrs.length) ∧
     (fu.co = .wait → h + D.length ≤ app.instrs.length + 1) ∧
-    (fu.complete = true → app.instrs.length ≤ h + D.length)
+    (fu.complete = true → NoJmp app → app.instrs.length ≤ h + D.length)
 
 /-- **the front of the pipeline** holds the instructions `n0, n0+1, …` in order: the runners are consecutive from `n0`,
 the pcs on the decode bus and the fetch unit's pc continue them -/
@@ -184,5 +187,31 @@ structure Front (app : App) (s : State) (n0 : Nat) : Prop where
   clean : s.fu.toCleanPending = false
   dlen : s.decodeBus.bufferLength = 2
   duOk : s.du.pendingBranchResolution = false
+
+/-- the runner is a jump (`j`, `jal`, `jalr`) -/
+def isJ (r : Runner) : Bool := r.instr.instructionType.IsUnconditionalBranch
+
+/-- what the decode unit will see on the decode bus: nothing when the fetch unit is about to clean it -/
+def effD (s : State) : List Word := if s.fu.toCleanPending then [] else s.decodeBus.inside
+
+/-- **the front of the pipeline, with jumps** (package R60c): the runners are consecutive from `n0`; while the decode unit is
+OPEN no jump is in flight and the pcs on the (effective) decode bus and the fetch unit's pc continue the runners; while it
+is CLOSED (a jump has been decoded and not yet executed) the jump is the youngest runner — and nothing is said about what
+the fetch unit has fetched behind it: it is thrown away when the jump executes. -/
+structure FrontJ (app : App) (s : State) (n0 : Nat) : Prop where
+  chain : Chain app n0 (runners s)
+  inRange : n0 + (runners s).length ≤ app.instrs.length
+  dlen : s.decodeBus.bufferLength = 2
+  opn : s.du.pendingBranchResolution = false →
+    Pcs app (n0 + (runners s).length) s.fu (effD s) 0 ∧ ∀ r ∈ runners s, isJ r = false
+  clo : s.du.pendingBranchResolution = true →
+    ∃ pre j, runners s = pre ++ [j] ∧ isJ j = true ∧ ∀ r ∈ pre, isJ r = false
+  plain : NoJmp app → s.fu.toCleanPending = false ∧ s.du.pendingBranchResolution = false
+
+theorem FrontJ.toFront {app : App} {s : State} {n0 : Nat} (h : FrontJ app s n0) (hn : NoJmp app) : Front app s n0 := by
+  have hp := h.plain hn
+  have := (h.opn hp.2).1
+  simp only [effD, hp.1, Bool.false_eq_true, if_false] at this
+  exact ⟨h.chain, h.inRange, this, hp.1, h.dlen, hp.2⟩
 
 end Proofs.Mvp60Sl
